@@ -85,9 +85,6 @@ func (s *Sched) SetStrategy(st Strategy) { s.strat = st }
 // Yield is the hook body: park the calling actor until the scheduler releases it.
 func Yield(site string, who int) {
 	bindExplicit(who)
-	if holdsLock() {
-		return
-	}
 	Progress.Add(1)
 	raceDisable()
 	s := cur.Load()
